@@ -45,11 +45,15 @@ func init() {
 	register(&Rule{
 		Name:  "CHECK-THEN-ACT",
 		IR:    "cfg",
-		Props: []string{"C40"},
-		// ingest.(*MutableWorlds).FindOrCreateWorld#held, #insert1, ListWorlds#held, DeleteWorld#held
-		Floor: 4,
+		Props: []string{"C40", "C36", "C35"},
+		// C40: ingest.(*MutableWorlds).FindOrCreateWorld#held, #insert1, #stale, ListWorlds#held, DeleteWorld#held
+		// C36/C35 (#stale): ingest/compact.(*Validator).ValidatePath, (*Validator).ValidateArea, (*NamespacedCounts).Namespace, encoding.(*StringTableBuilder).Write
+		Floor:   3,
+		FloorBy: map[string]int{"C40": 5, "C36": 4, "C35": 4},
 		Doc: "for struct types of ingest/api/grpc/ui that own a sync.Mutex/RWMutex and a map field: every store/delete on the map happens with the lock exclusively held and every read with it held; " +
-			"a store that registers a value created in the function is control dependent on the absent outcome of a lookup of the same map and key made in the same critical section (no Unlock/RUnlock between lookup and store)",
+			"a store that registers a value created in the function is control dependent on the absent outcome of a lookup of the same map and key made in the same critical section (no Unlock/RUnlock between lookup and store); " +
+			"#stale, for every such type of the module (ingest/compact.Validator, NamespacedCounts, …): an action on the owner's state (store, delete, drain) that is decided by a read of a guarded map is not separated " +
+			"from that read by a release of the lock, unless a fresh read of the same map and key in the later critical section decides it too",
 		Run: runCheckThenAct,
 	})
 }
@@ -71,14 +75,19 @@ func iIsMutexType(t types.Type) bool {
 }
 
 func runCheckThenAct(c *Ctx) []Obligation {
-	// guarded types and their fields
+	// guarded types and their fields: every package of the module; the #held/#insert clauses keep
+	// their slot (types of ingest, api, grpc, ui), the #stale clause covers all of them
+	legacyPkg := map[string]bool{}
+	for _, rel := range iCTAPkgs {
+		legacyPkg[rel] = true
+	}
 	mapOwner := map[*types.Var]*iGuardedType{}
 	lockOwner := map[*types.Var]*iGuardedType{}
-	for _, rel := range iCTAPkgs {
-		p := c.Pkg(rel)
-		if p == nil {
-			continue
-		}
+	legacyMapOwner := map[*types.Var]*iGuardedType{}
+	legacyLockOwner := map[*types.Var]*iGuardedType{}
+	allFields := map[*iGuardedType]map[*types.Var]bool{}
+	ownerRel := map[*iGuardedType]string{}
+	for _, p := range c.SortedPkgs() {
 		scope := p.Types.Scope()
 		for _, name := range scope.Names() {
 			tn, ok := scope.Lookup(name).(*types.TypeName)
@@ -94,20 +103,32 @@ func runCheckThenAct(c *Ctx) []Obligation {
 				continue
 			}
 			gt := &iGuardedType{named: named, locks: map[*types.Var]bool{}, maps: map[*types.Var]bool{}}
+			fields := map[*types.Var]bool{}
 			for i := 0; i < st.NumFields(); i++ {
 				f := st.Field(i)
 				if iIsMutexType(f.Type()) {
 					gt.locks[f] = true
-				} else if _, isMap := f.Type().Underlying().(*types.Map); isMap {
+					continue
+				}
+				fields[f] = true
+				if _, isMap := f.Type().Underlying().(*types.Map); isMap {
 					gt.maps[f] = true
 				}
 			}
 			if len(gt.locks) > 0 && len(gt.maps) > 0 {
+				allFields[gt] = fields
+				ownerRel[gt] = relPkg(p)
 				for f := range gt.maps {
 					mapOwner[f] = gt
+					if legacyPkg[relPkg(p)] {
+						legacyMapOwner[f] = gt
+					}
 				}
 				for f := range gt.locks {
 					lockOwner[f] = gt
+					if legacyPkg[relPkg(p)] {
+						legacyLockOwner[f] = gt
+					}
 				}
 			}
 		}
@@ -115,10 +136,34 @@ func runCheckThenAct(c *Ctx) []Obligation {
 	if len(mapOwner) == 0 {
 		return nil
 	}
+	methodCache := map[*iGuardedType]*iOwnerMethods{}
+	methods := func(gt *iGuardedType) *iOwnerMethods {
+		if m, ok := methodCache[gt]; ok {
+			return m
+		}
+		m := iCTAOwnerMethods(c, gt, allFields[gt])
+		methodCache[gt] = m
+		return m
+	}
+	ownerFields := func(gt *iGuardedType) map[*types.Var]bool { return allFields[gt] }
 	var out []Obligation
 	for _, p := range c.SortedPkgs() {
 		for _, fd := range c.FuncDecls(p) {
-			out = append(out, iCTAFunc(c, p, fd, mapOwner, lockOwner)...)
+			if len(legacyMapOwner) > 0 {
+				for _, ob := range iCTAFunc(c, p, fd, legacyMapOwner, legacyLockOwner) {
+					ob.Props = []string{"C40"}
+					out = append(out, ob)
+				}
+			}
+			for _, ob := range iCTAStaleFunc(c, p, fd, mapOwner, lockOwner, methods, ownerFields) {
+				// the request-serving registries serve C40; the parallel build state of
+				// ingest/compact (and anything else) serves C36 and C35
+				ob.Props = []string{"C36", "C35"}
+				if legacyPkg[relPkg(p)] {
+					ob.Props = []string{"C40"}
+				}
+				out = append(out, ob)
+			}
 		}
 	}
 	return out
